@@ -116,6 +116,28 @@ func zzRunC05(r *simcore.Run) {
 		zzExamine(r, s)
 		states++
 	}
+	// Live force close: in one run out of four the history ends with
+	// ForceClose on the LIVE channel object of the side that has just
+	// accepted a new commitment and not yet revoked the old one (local chain
+	// tip = tail + 1) - the one in-memory state a reloaded object never has.
+	// What it broadcasts must be the commitment that is durable, and every
+	// resolution must validate against it.
+	liveAt := 0
+	if r.Tape.CfgDraw(4) == 3 {
+		liveAt = 1 + r.Tape.CfgDraw(12)
+	}
+	preRevokes := 0
+	mode.OnPreRevoke = func(s *chansim.Sim, side int) {
+		preRevokes++
+		if liveAt == 0 || preRevokes != liveAt {
+			return
+		}
+		zzLiveForceClose(r, s, side, zzPreimages(s))
+		states++
+		r.Count("probe_live_force_close_unrevoked")
+		r.Nontrivial = true
+		s.EndRun("live channel object consumed by ForceClose")
+	}
 	s := chansim.NewSim(r, cfg, mode)
 	s.Run()
 	r.Add("states_examined", int64(states))
@@ -191,6 +213,39 @@ func zzOwnCommit(r *simcore.Run, s *chansim.Sim, x int, pre map[[32]byte][32]byt
 		r.Fail("force-close", "%s: no contract resolutions: %v", who, err)
 	}
 	zzCheckResolutions(r, s, fp, who, ctx, &lc, res.CommitResolution, res.HtlcResolutions, true, pre)
+}
+
+// zzLiveForceClose: ForceClose on the live object of side x while it holds an
+// accepted, unrevoked commitment.
+func zzLiveForceClose(r *simcore.Run, s *chansim.Sim, x int, pre map[[32]byte][32]byte) {
+	p := s.P[x]
+	// what is durable right now (a crash here leaves exactly this)
+	fp := s.ForkParty(x)
+	durable := fp.Chan.State().LocalCommitment
+	fp.KV.Close()
+	if durable.CommitHeight == 0 {
+		return
+	}
+	who := fmt.Sprintf("%s live object, unrevoked accepted commitment, durable height %d", p.Name, durable.CommitHeight)
+	sum, err := p.Chan.ForceClose()
+	if err != nil {
+		r.Fail("force-close", "%s: ForceClose fails: %v", who, err)
+	}
+	ctx := sum.CloseTx
+	fund := p.Chan.FundingTxOut()
+	prevFund := map[wire.OutPoint]*wire.TxOut{ctx.TxIn[0].PreviousOutPoint: fund}
+	if err := zzVerifyInput(ctx, 0, prevFund); err != nil {
+		r.Fail("commit-invalid", "%s: the signed commitment does not validate against the funding output: %v", who, err)
+	}
+	r.Count("script_validations")
+	if ctx.TxHash() != durable.CommitTx.TxHash() {
+		r.Fail("commit-invalid", "%s: ForceClose broadcasts %v, the durable commitment is %v", who, ctx.TxHash(), durable.CommitTx.TxHash())
+	}
+	res, err := sum.ContractResolutions.UnwrapOrErr(fmt.Errorf("no resolutions"))
+	if err != nil {
+		r.Fail("force-close", "%s: no contract resolutions: %v", who, err)
+	}
+	zzCheckResolutions(r, s, p, who, ctx, &durable, res.CommitResolution, res.HtlcResolutions, true, pre)
 }
 
 // zzRemoteCommit: the peer's commitment confirms; recognised through the real
